@@ -4102,7 +4102,13 @@ func (r *Resolver) resolveWithCachedNameservers(ctx context.Context, rs *resolve
 		return nil, errMaxDepth
 	}
 
-	rs.level++
+	// The descent is now inside the cached zone, however many labels the
+	// referral skipped. level is what checkGlueRR measures a glue owner's
+	// bailiwick against, so counting one label per referral would let the
+	// servers of a zone delegated two labels down (an empty non-terminal in
+	// between) supply glue for hosts in their sibling zones. This is the same
+	// value the uncached branch of processDelegation assigns.
+	rs.level = dns.CountLabel(q.Name)
 	rs.servers = cached.Servers
 	rs.parentDS = cached.DSSet
 	rs.isRoot = false
